@@ -76,6 +76,19 @@ func (in *Interp) binop(op token.Token, t types.Type, x, y Value) Value {
 	case token.NEQ:
 		return tt.Not(in.eqOrNil(t, x, y))
 	}
+	if fx, fy, ok := in.floatIntPair(x, y); ok {
+		switch op {
+		case token.LSS:
+			return tt.Cmp(OpBvSlt, fx, fy)
+		case token.LEQ:
+			return tt.Cmp(OpBvSle, fx, fy)
+		case token.GTR:
+			return tt.Cmp(OpBvSlt, fy, fx)
+		case token.GEQ:
+			return tt.Cmp(OpBvSle, fy, fx)
+		}
+		panic(unsupported("arithmetic on a symbolic float"))
+	}
 	switch x := x.(type) {
 	case *Term:
 		y := y.(*Term)
@@ -427,6 +440,14 @@ func (in *Interp) conv(tdst, tsrc types.Type, x Value) Value {
 					}
 					return tt.Zext(xt, wd)
 				case ud.Info()&types.IsFloat != 0:
+					if xt.op != OpConst && ud.Kind() == types.Float64 {
+						// float64 of a symbolic integer: kept as a tagged integer (exact for |x| < 2^53,
+						// which the harness must assume); only conversion back and comparisons are modelled
+						if isSigned(us) {
+							return FloatInt{t: tt.Sext(xt, 64)}
+						}
+						return FloatInt{t: tt.Zext(xt, 64)}
+					}
 					v := in.concretize(xt)
 					var f float64
 					if isSigned(us) {
@@ -456,6 +477,21 @@ func (in *Interp) conv(tdst, tsrc types.Type, x Value) Value {
 					return mkStr(string(r))
 				}
 			}
+		}
+		if fi, ok := x.(FloatInt); ok && us.Info()&types.IsFloat != 0 {
+			if ud, ok := ud.(*types.Basic); ok {
+				switch {
+				case ud.Info()&types.IsFloat != 0 && ud.Kind() == types.Float64:
+					return fi
+				case ud.Info()&types.IsInteger != 0:
+					w := in.width(ud)
+					if w >= 64 {
+						return fi.t
+					}
+					return tt.Extract(fi.t, w-1, 0)
+				}
+			}
+			panic(unsupported("conversion of a symbolic float"))
 		}
 		if us.Info()&types.IsFloat != 0 {
 			f := x.(float64)
